@@ -113,6 +113,7 @@ class Path:
         self.ghost: dict = {}
         self.trace: list[str] = []
         self.dead = False
+        self.stmts: set = set()
 
     def copy(self):
         p = Path()
@@ -128,6 +129,7 @@ class Path:
         p.old_heaps = list(self.old_heaps)
         p.ghost = dict(self.ghost)
         p.trace = list(self.trace)
+        p.stmts = set(self.stmts)
         return p
 
     @property
@@ -184,6 +186,7 @@ class EngineBase:
         self.functions_under_contract: dict[str, dict] = {}
         self.ufuncs: dict[str, z3.FuncDeclRef] = {}
         self.max_paths = 4000
+        self.terminals: list = []     # (target, pc, stmts) of every path end, for the cover (vacuity) queries
 
     # ---------------------------------------------------------------- schema
     def add_class(self, decl: ClassDecl):
@@ -303,6 +306,10 @@ class EngineBase:
 
     def assume_typed(self, p: Path, v: V, heap=None, epoch=None):
         """Typing assumption: a declared reference holds null or an allocated object of its class."""
+        if isinstance(v, VSeq):
+            p.assume(v.len >= 0)
+        elif isinstance(v, VMap) and v.keys is not None:
+            p.assume(v.keys.len >= 0)
         if isinstance(v, VRef) and v.cls is not None and v.cls in self.classes:
             al = self.alloc_arr(p, heap, epoch)
             ids = [self.classes[c].id for c in self.subclasses(v.cls)]
@@ -351,6 +358,10 @@ class EngineBase:
             p.assume(z3.ForAll([r], z3.Implies(z3.Select(old_alloc, r), z3.Select(new_alloc, r))))
 
     # ---------------------------------------------------------------- obligations / forking
+    def terminal(self, p: Path, what=""):
+        """Record a path end for the reachability (anti-vacuity) check."""
+        self.terminals.append((self.cur_target, list(p.pc), set(p.stmts), what))
+
     def oblige(self, p: Path, goal, kind, where="", extra=None):
         raw = goal
         goal = z3.simplify(goal)
